@@ -1,9 +1,19 @@
-"""C10 — roughness lengths: formulas, NaN-or-positive Janssen estimate; Charnock implicit equation bounded.
+"""C10 — roughness lengths: formulas, NaN-or-positive Janssen estimate, exit contract of the fixed-point solver behind the Charnock roughness.
 
 Proved: drag_coefficient = (kappa/ln(z/z0))^2, roughness_wu positive with its closed form, _charnock_relation_point (capped
-Charnock relation), _roughness_estimate_point returns NaN or exp(.) > 0 on every return path.
-Bounded (never counted as proved): fixed_point_iteration / charnock_roughness_length(_from_u10) / drag_coefficient_charnock are
-xarray + `global` code outside the verified subset; the implicit equation is checked at the returned value on the real functions."""
+Charnock relation), _roughness_estimate_point returns NaN or exp(.) > 0 on every return path, the stress balance handed to the root finder.
+tools/solvers.py::fixed_point_iteration (numpy input: 1-d array of any length with possibly-NaN cells, any function that maps missing cells
+to missing cells, bounds none / lower / both, default configuration or any field values), by a loop invariant and a counting lemma:
+  * left through `break` with fraction_of_points == 1: every cell with a finite guess passes the convergence test against the previous
+    iterate p and equals clamp(function(p)) -- an approximate fixed point of the clamped function (backward-error form);
+  * cells with a missing guess are returned missing on every exit;
+  * loop exhausted: ValueError iff error_if_not_converged, otherwise every cell is NaN or passed the test in the last iteration;
+  * the module-level `_iteration_depth` counter is restored on normal exits.
+wavephysics/roughness.py::charnock_roughness_length_from_u10 (numpy input) uses that contract at its call site: the iterated function is
+z -> alpha (kappa U / ln(10/z))^2 / g + [u* > 0] c nu / u*, it maps missing to missing, bounds (0, inf); on the converged exit the returned
+roughness is that relation at a point within 1e-4 (absolute and relative) of it; missing wind speeds give missing roughness.
+Bounded (never counted as proved): that the iteration converges, hence the residual of the implicit equation at the *returned* value,
+monotonicity, and everything on DataArray / scalar inputs (drag_coefficient_charnock wraps its input in a DataArray: xarray path of the solver)."""
 from fractions import Fraction
 from pyvc.api import *
 from pyvc.api import CalleeContract
@@ -294,7 +304,8 @@ def _p_fpi(bounds, config):
 
 
 def _finite_or_nan(v):
-    """the value is NaN or a finite real (no infinity)"""
+    """the value is NaN or a finite real (no infinity).  In the symbolic model this is the standing assumption (DESIGN 2.3: every real other than
+    the literal np.inf is finite, so it evaluates to True); it is a genuine precondition of the executable twin"""
     from pyvc import lib as _lib
     if isinstance(v, _T.XR):
         return Or(v.nan, _lib._finite_plain(v.v))
@@ -521,8 +532,7 @@ if _os.environ.get("C10_FPI_ONLY"):          # debugging aid: restrict the solve
 fixed_point = Contract(
     S + "fixed_point_iteration", instances=FPI_INST,
     requires=[("nonempty", lambda a: _len(a.guess) >= 1),
-              ("guess_cells_are_finite_or_missing", lambda a: forall(0, _len(a.guess), lambda e: _finite_or_nan(a.guess[e]))),
-              ("finite_bounds", lambda a: And(*[Not(_T.cmp("==", b, _T.INF)) for b in _fpi_bounds(a) if _T.is_sym(b) and not b.eq(_T.INF) and not b.eq(_T.NINF)]))],
+              ("guess_cells_are_finite_or_missing", lambda a: forall(0, _len(a.guess), lambda e: _finite_or_nan(a.guess[e]))),],
     ensures=[("converged_exit_every_finite_guess_cell_is_an_approximate_fixed_point_of_the_clamped_function", _post_converged_exit),
              ("missing_guess_cells_are_returned_missing", _post_missing),
              ("exhausted_exit_returns_nan_or_cells_that_passed_the_convergence_test_and_only_when_errors_are_off", _post_exhausted),
@@ -669,6 +679,37 @@ def _charnock_missing(a, r):
     return forall(0, a.speed.n, lambda e: implies(isnan(a.speed[e]), isnan(rc(e))))
 
 
+# the relation itself: charnock_roughness_length(u*) cell by cell (numpy input; missing friction velocity -> missing roughness)
+def _p_relation(mk):
+    n = mk.size("n")
+    return {"friction_velocity": mk.array("ustar", (n,), "xreal"), "charnock_constant": mk.real("alpha"), "viscous_constant": mk.real("c_visc")}
+
+
+def _relation_post(a, r):
+    if not is_symbolic(a.charnock_constant):
+        import numpy as np
+        u, z = np.asarray(a.friction_velocity, dtype="float64"), np.asarray(r, dtype="float64")
+        with np.errstate(all="ignore"):
+            ref = a.charnock_constant * u ** 2 / 9.81 + np.where(u > 0, a.viscous_constant * 1.48e-5 / u, 0.0)
+        return bool(np.allclose(z, ref, rtol=1e-12, atol=0, equal_nan=True))
+    rc = _cells_of(a._snap, a._result_raw)
+
+    def cell(e):
+        u = a.friction_velocity[e]
+        uv = valof(u)
+        ref = _T.add(_T.div(_T.mul(a.charnock_constant, _T.mul(uv, uv)), GRAV), _T.ite(_T.cmp(">", uv, 0), _T.div(_T.mul(a.viscous_constant, NU_AIR), uv), Fraction(0)))
+        return And(iff(isnan(u), isnan(rc(e))), implies(notnan(u), eq(valof(rc(e)), ref)))
+    return forall(0, a.friction_velocity.n, cell)
+
+
+charnock_relation = Contract(
+    R + "charnock_roughness_length", params=_p_relation,
+    requires=[("dims", lambda a: _len(a.friction_velocity) >= 0)],
+    ensures=[("alpha_ustar_squared_over_g_plus_viscous_term_for_positive_ustar_and_missing_iff_missing", _relation_post)],
+    witness=[lambda: ("", {"friction_velocity": __import__("numpy").array([0.0, -0.2, 0.01, float("nan"), 0.35, 2.0]), "charnock_constant": 0.0185, "viscous_constant": 0.11})],
+)
+
+
 def _charnock_witnesses():
     import numpy as np
     nan = float("nan")
@@ -686,7 +727,7 @@ charnock_from_u10 = Contract(
     ensures=[("converged_solver_exit_returns_the_charnock_relation_at_a_point_within_the_tolerances_of_the_result", _charnock_converged),
              ("missing_wind_speeds_give_missing_roughness", _charnock_missing)],
     callees={FPI_AT_CALL.target: FPI_AT_CALL},
-    options={"finite_reals": True, "native_call": _charnock_native_call},
+    options={"native_call": _charnock_native_call},
     witness=[(lambda k=k: _charnock_witnesses()[k]) for k in range(4)],
     label="charnock_roughness_length_from_u10[ndarray]",
 )
@@ -863,8 +904,14 @@ def _bounded_janssen(tier, seed):
 
 BOUNDED = [Bounded("janssen.stress_balance.compiled", _bounded_janssen, "NaN-or-positive and closure of the stress balance at the returned roughness"),
            Bounded("charnock.implicit_equation", _bounded_charnock, "residual of the implicit Charnock equation at the returned roughness; NaN handling; monotonicity")]
-CONTRACTS = [drag, wu, charnock_point, estimate_point, stress_balance, total_stress, estimate_wiring, fixed_point, charnock_from_u10]
+CONTRACTS = [drag, wu, charnock_point, estimate_point, stress_balance, total_stress, estimate_wiring, fixed_point, charnock_relation, charnock_from_u10]
 TRUSTED = ["A-table: exp(x) > 0; sqrt(x) > 0 for x > 0; log is an uninterpreted function (formula contracts are syntactic in log)",
-           "np.nan is an opaque non-real value in the model (np.isnan of a real is False: NaN *inputs* are outside the real model and are sampled in the bounded stand-in)"]
-EXPLANATION = ("formula fragments and the NaN-or-positive exit contract of the Janssen estimate are proved; the Charnock fixed point "
-               "(fixed_point_iteration: xarray, module-global counter, f-string logging) is outside the subset: bounded residual check on the real functions")
+           "np.nan is an opaque non-real value in the model of the scalar contracts; the solver / Charnock contracts use possibly-NaN cells (value + missing flag, IEEE propagation, "
+           "comparisons with NaN false); infinities are not modelled (standing assumption: every real other than the literal np.inf is finite; the solver contract's precondition "
+           "`guess_cells_are_finite_or_missing` is therefore trivially true symbolically and a real precondition of the executable twin)",
+           "fixed_point_iteration: the iterated function is an arbitrary array function with the single hypothesis NaN cell in => NaN cell out (checked at the Charnock call site for "
+           "an arbitrary argument array); arrays must be non-empty (np.nanmax of an empty array raises ValueError in the first iteration)",
+           "Sum lemma schema `monotone` (pyvc/terms.py, contract option sum_monotone): pointwise ordered terms give ordered sums, strictly if strict at one index of the range",
+           "logging calls and the f-string log messages have no modelled effect"]
+EXPLANATION = ("formula fragments, the NaN-or-positive exit contract of the Janssen estimate, the stress balance wiring, the exit contract of the fixed-point solver (numpy input) and its use by "
+               "charnock_roughness_length_from_u10 are proved; convergence of the iterations, the residual at the returned roughness and DataArray / scalar inputs are bounded checks on the real functions")
